@@ -237,6 +237,10 @@ func c18Enumeration(c *Ctx, ge *GuardEngine) {
 			if cf.Callee != nil && FuncName(cf.Callee) == "(types.Hash256).EncodeTo" && len(cf.Args) > 0 && strings.HasPrefix(cf.Args[0], "call types.computeMultiproof(") && strings.HasSuffix(cf.Args[0], "[*]") {
 				wrote = true
 			}
+			// or its 32 bytes handed to the Encoder directly
+			if cf.Callee != nil && FuncName(cf.Callee) == "(types.Encoder).Write" && len(cf.Args) == 2 && len(cf.Chain) == 1 && strings.HasPrefix(cf.Args[1], "call types.computeMultiproof(") && strings.HasSuffix(cf.Args[1], "[*]") {
+				wrote = true
+			}
 		}
 		c.Check(wrote, "proof-count", "encoder:writes-every-hash", where, ifElse(wrote, "every hash of computeMultiproof(txns) is written in order", "the encoder does not write each element of computeMultiproof(txns)"))
 	} else {
